@@ -14,11 +14,12 @@ class Target:
     """A test problem: affine prior transform on [lo, hi]^d and a likelihood in scalar / vectorised /
     blob-returning form that are pointwise identical (same floating-point operations per point)."""
 
-    def __init__(self, n_dim, kind="gauss", lo=-5.0, hi=5.0, shift=0.0, support=None, quant=None):
+    def __init__(self, n_dim, kind="gauss", lo=-5.0, hi=5.0, shift=0.0, support=None, quant=None, slow=None):
         self.n_dim = n_dim
         self.kind = kind
         self.lo, self.hi = lo, hi
         self.shift = shift
+        self.slow = slow  # None, or seconds to sleep for points with x[0] > 0 (evaluation time varies across a batch)
         self.quant = quant  # None, or q: log-likelihood values rounded to multiples of 2^-q (dyadic: adding a dyadic shift is exact)
         self.support = support  # None or fraction f: likelihood is zero unless u_0 < f  (x_0 < lo + f (hi-lo))
         if kind == "gauss":
@@ -38,6 +39,10 @@ class Target:
 
     def _logl_point(self, x):
         # explicit per-coordinate arithmetic so that batch and scalar evaluation are bit-identical
+        if self.slow and x[0] > 0:
+            import time
+
+            time.sleep(self.slow)
         if self.support is not None and not (x[0] < self.lo + self.support * (self.hi - self.lo)):
             return -np.inf
         s = 0.0
@@ -98,7 +103,7 @@ class PermutingPool:
 DEFAULTS = dict(n_dim=2, n_particles=8, ess_ratio=2.0, volume_variation=None, evaluation="scalar", periodic=None,
                 reflective=None, pool=None, clustering=True, normalize=True, cluster_every=1, split_threshold=1.0,
                 n_max_clusters=None, sample="tpcn", n_steps=None, n_max_steps=None, resample="mult",
-                random_state=None, target="gauss", support=None, shift=0.0, quant=None)
+                random_state=None, target="gauss", support=None, shift=0.0, quant=None, slow=None)
 
 
 def build_sampler(conf: dict, rec: psrun.Recorder | None, out_dir=None):
@@ -106,7 +111,7 @@ def build_sampler(conf: dict, rec: psrun.Recorder | None, out_dir=None):
 
     c = dict(DEFAULTS)
     c.update(conf)
-    tgt = Target(c["n_dim"], c["target"], shift=c["shift"], support=c["support"], quant=c["quant"])
+    tgt = Target(c["n_dim"], c["target"], shift=c["shift"], support=c["support"], quant=c["quant"], slow=c["slow"])
     ev = c["evaluation"]
     if ev == "vector":
         ll, vec, bd = tgt.logl_vector, True, None
